@@ -25,5 +25,27 @@ package callable
 // C09: several hooks failing at the same point are collected without harming the core: the goroutines spawned by
 // AwaitAll may write the shared result map only under a lock.
 //@ func (s Calls) AwaitAll() (errs map[*Call]error)
-//@   property C09
+//@   property C09 C08
 //@   goframes
+//@   ghostvar spawned int = 0
+//@   on go (Calls).AwaitAll$1 : spawned = spawned + 1
+//@   loop 1 invariant spawned == #i + 1 && #i < len(s)
+//@   ensures spawned == len(s)
+
+// each spawned collector awaits exactly its own call, exactly once (C08: every started call is collected exactly once)
+//@ closure (Calls).AwaitAll #1
+//@   property C08
+//@   ghostvar n int = 0
+//@   on call (*Call).Await : assert arg0 == v && n == 0 ; n = n + 1
+//@   ensures n == 1
+
+// C08: a trigger expression is <name><+|-><decimal weight>; the weight is parsed as a decimal integer, 0 when missing or malformed
+//@ func ParseTriggerExpression(triggerExpr string) (triggerName string, triggerWeight HookWeight)
+//@   property C08
+//@   ghostvar parsedBy bool = false
+//@   ghostvar perr bool = false
+//@   ghostvar parsed int = 0
+//@   on aftercall strconv.Atoi : assert !parsedBy ; parsedBy = true ; perr = (result1 != nil) ; parsed = result0
+//@   ensures parsedBy
+//@   ensures !perr ==> triggerWeight == parsed
+//@   ensures perr ==> triggerWeight == 0
